@@ -44,9 +44,9 @@ def vtNotForwardedNLP : List (String × String) :=
 
 /-- entries of `ControlProblemVTable` that `DLControlProblem` does not forward to a table member -/
 def vtNotForwardedOCP : List (String × String) :=
-  [("check", "DLControlProblem::check is declared inline in dl-problem.hpp with an empty body; the C ABI has no member for it"),
-   ("eval_proj_diff_g", "implemented by DLControlProblem itself (dlOCP.own): z − Π(z) on the stage set D (N times) and the terminal set D_N, the boxes being queried from the plug-in (get_D / get_D_N) when it is loaded; the C ABI has no member for it"),
-   ("eval_proj_multipliers", "implemented by DLControlProblem itself (dlOCP.own): BoxConstrProblem::eval_proj_multipliers_box per stage on D and on D_N; the C ABI has no member for it")]
+  [("check", "DLControlProblem::check is defined inline in dl-problem.hpp with an EMPTY body (theorem dl_check_bodies in Props/C20_Proj.lean: the exemption breaks when a body appears); the C ABI has no member for it, nothing is validated"),
+   ("eval_proj_diff_g", "implemented by DLControlProblem itself (dlOCP.own): z − Π(z) on the stage set D (N times) and the terminal set D_N, the boxes being queried from the plug-in (get_D / get_D_N) when it is loaded; the C ABI has no member for it; what it computes: Props/C20_Proj.lean (dl_ocp_projection_description, dlocpProjDiff_stagewise, project_spec)"),
+   ("eval_proj_multipliers", "implemented by DLControlProblem itself (dlOCP.own): BoxConstrProblem::eval_proj_multipliers_box per stage on D and on D_N; the C ABI has no member for it; Props/C20_Proj.lean (dlocpProjMult_stagewise, multiplier_spec)")]
 
 /-- public members of the type-erased classes that are not vtable entries -/
 def teOtherMembersNLP : List (String × String) :=
